@@ -142,7 +142,7 @@ def eval_migration(f, path, records, target_empty=True):
         return "UNSUPPORTED-FORM: %s" % e, log
 
 
-def eval_entry_put(f, head):
+def eval_entry_put(f, head, empty=False):
     """StoreInstance::entry_put evaluated: Store::modify runs the transaction body; `head` = None (author unknown) or
     cmp((timestamp,key) of the entry, stored head) in {-1,0,1}. Returns (rendered result, table writes)."""
     from . import feval as E
@@ -173,6 +173,8 @@ def eval_entry_put(f, head):
             return E.Ok(E.NONE)
         if name == "value" and names == ["headguard"]:
             return E.Tok("head-row")
+        if name == "is_empty" and names and names[0].strip("&*") in ("e", "entry(e)", "record(e)"):
+            return E.Int(1 if empty else 0)      # the entry being stored is a deletion marker
         if name in ("to_bytes", "as_bytes") and names:
             return E.Tok("b(%s)" % names[0])
         return None
@@ -225,8 +227,9 @@ def r2(ctx):
     ctx.check(got == "Ok(Execute(%d))" % len(best) and okrows, "C18.R2", m1.path, "heads-rebuilt-as-greatest-timestamp-per-author",
               "evaluated on %d records: returns %s, rows %s; spec: one row per (namespace, author) holding the greatest (timestamp, key) - what entry_put maintains: %s" % (len(R), got, rows, best), m1.sp)
     # entry_put maintains the same shapes
-    for head, label in ((None, "author-unknown"), (1, "newer-than-head"), (0, "equal-to-head"), (-1, "older-than-head")):
-        got, log = eval_entry_put(f, head)
+    for head, label, empty in [(None, "author-unknown", False), (1, "newer-than-head", False), (0, "equal-to-head", False), (-1, "older-than-head", False),
+                               (None, "author-unknown,deletion-marker", True), (1, "newer-than-head,deletion-marker", True), (-1, "older-than-head,deletion-marker", True)]:
+        got, log = eval_entry_put(f, head, empty)
         w = {x[0]: x for x in log if x[1] != "get"}
         rec, byk, lat = w.get("records"), w.get("records_by_key"), w.get("latest_per_author")
 
@@ -240,7 +243,7 @@ def r2(ctx):
             kc, vc = comps(lat[2]), comps(lat[3])
             oklat = oklat and len(kc) == 2 and _has(kc[0], "namespace") and _has(kc[1], "author") and len(vc) == 2 and _has(vc[0], "timestamp") and _has(vc[1], "key")
         ctx.check(got == "Ok(())" and okrec and okbyk and oklat, "C18.R2", EP, "entry_put[%s]" % label,
-                  "returns %s, writes %s; spec: records keyed (namespace, author, key), by-key index (namespace, key, author), head (namespace, author) -> (timestamp, key) written unless the stored head is newer" % (got, log), ep.sp)
+                  "returns %s, writes %s; spec: records keyed (namespace, author, key), by-key index (namespace, key, author) - for deletion markers too: they take part in every key-ordered answer -, head (namespace, author) -> (timestamp, key) written unless the stored head is newer" % (got, log), ep.sp)
     # the reader of the index inverts the permutation (shared with C05.R6)
     from . import C05
     sub = type(ctx)(ctx.prop, ctx.tier, ctx.facts, ctx.cfg)
